@@ -23,7 +23,7 @@ ASSUMPTIONS = [
 ]
 MANIFEST = {'text': 'proof (all normal paths) that the command handler sends exactly one text reply per command and that `close` only leaves its drain loop when the pipeline is disconnected and joins all threads; '
                     'plus a deviance rule (level other) that no parse/split result of request text is unwrapped unguarded in the handler cone.'
-                    ' Added: integers parsed from the request reach allocation sizes, slice indices/range bounds and checked multiplications only behind a bound (taint rule with helper summaries).'}
+                    ' Added: integers parsed from the request reach allocation sizes, slice indices/range bounds and checked multiplications only behind a bound (taint rule with helper summaries). Added: eagerly evaluated defaults (unwrap_or / map_or / then_some) in the remote module contain no panic-capable operation. Added: text is sliced by byte offsets only at offsets obtained from the text itself (find / char_indices / len). Added: unsigned subtractions that involve a stream window bound (client state, changeable at any time by stream_change_window) are discharged by a dominating comparison / clamp.'}
 
 TEXT_VARIANT = 'Message::Text'
 PARSE_LIKE = re.compile(r'(split_once|rsplit_once|::parse|from_str|::get\b|::nth\b|strip_prefix|strip_suffix|::find\b|::position\b|as_u64|as_i64|as_str|as_array|as_object|as_bool|'
@@ -119,6 +119,12 @@ def run(F, chk):
     check_client_integers(F, R4)
     R5 = chk.rule('R5', 'a stream is removed from the session by index only with a position just looked up on the list (otherwise through retain)')
     check_stream_removal(F, R5)
+    R6 = chk.rule('R6', 'remote module: the eagerly evaluated default of unwrap_or / map_or / then_some contains no panic-capable operation (slicing, unsigned subtraction, division)')
+    check_eager_defaults(F, R6)
+    R7 = chk.rule('R7', 'remote module: text is sliced by byte offsets only at offsets that come from the text itself (find / char_indices / len), never at a fixed or foreign number')
+    check_str_slicing(F, R7)
+    R8 = chk.rule('R8', 'remote module: an unsigned subtraction that involves a stream window bound (msgs_to_send, set by stream / query / stream_change_window requests) is discharged by a dominating comparison, clamp or bounded form')
+    check_window_subtractions(F, R8)
     hs = find_handler(F)
     R1.floor('command handler (anchor: fn(.., String, &mut Option<FileContext>, &mut WebSocket))', len(hs), 1)
     for h in hs:
@@ -593,3 +599,149 @@ def check_stream_removal(F, R5):
                 R5.violation(('stream-removed-by-stored-index', b.closure_of or b.path), '%s removes a stream at %s by the index %s, which is not a position just looked up on the list: after the first removal of a pass '
                              'such an index denotes another stream (a live stream vanishes) or lies beyond the end (panic in the connection thread)' % (b.path, b.loc(t.sp), show(idx)[:60]), where=b.loc(t.sp))
     R5.floor('index removals from the stream list', n, 1)
+
+
+# ---------------------------------------------------------------------------------------------
+# R6: eager defaults are total
+
+EAGER = re.compile(r'(Option::<T>::(unwrap_or|map_or|ok_or|and|or|xor|insert|get_or_insert)|Result::<T, E>::(unwrap_or|map_or|and|or)|bool::then_some)$')
+
+
+def check_eager_defaults(F, R6):
+    """"every command gets exactly one reply": a panic in the connection thread sends none.  `x.unwrap_or(default)` evaluates
+    `default` on every call, also when x is Some - a slicing / subtraction that is only valid in the None case
+    (`split_once("!/").unwrap_or((&p[..p.len() - 1], ""))`) panics for inputs that never needed the default.  Over all bodies
+    of the remote module: the default argument of the eager combinators must not be computed by str/slice indexing with a
+    non-constant range, an unsigned subtraction, or a division (those belong into unwrap_or_else / map_or_else closures)."""
+    n = 0
+    bodies = [b for b in F.order if b.crate == 'bin' and b.path.startswith('adlt_bin::remote::') and '::tests::' not in b.path]
+    for b in bodies:
+        cfg = E = None
+        for blk in b.calls():
+            t = blk.term
+            if not EAGER.search(t.callee.path) or len(t.args) < 2:
+                continue
+            cfg = cfg or CFG(b)
+            E = E or ExprBuilder(cfg, fold_named=True)
+            n += 1
+            R6.sites += 1
+            R6.fn(b.path)
+            d = E.operand(t.args[1])
+            bad = None
+            for x in walk(d):
+                if not (isinstance(x, tuple) and x):
+                    continue
+                if x[0] == 'call' and re.search(r'(Index::index|IndexMut::index_mut|::split_at|::split_at_mut|Option::unwrap|Option::expect|Result::unwrap|Result::expect)$', x[1]):
+                    rng = x[2][1] if len(x[2]) > 1 else None
+                    if rng is None or fold_const(rng) is None and not (isinstance(rng, tuple) and rng[0] == 'str'):
+                        bad = show(x)[:70]
+                if x[0] == 'bin' and x[1] in ('Sub', 'Div', 'Rem') and fold_const(x[3]) != 0:
+                    if not (x[1] in ('Div', 'Rem') and (fold_const(x[3]) or 0) > 0):
+                        bad = show(x)[:70]
+            if bad:
+                R6.violation(('eager-default-can-panic', b.closure_of or b.path, t.callee.path.split('::')[-1]), '%s passes %s as the eagerly evaluated default of %s at %s: it is computed on every call, also when the default is not needed - '
+                             'an input for which it is not defined panics the connection thread (no reply, connection reset); use the lazy *_or_else form' % (b.path, bad, t.callee.path.split('::')[-1], b.loc(t.sp)), where=b.loc(t.sp))
+            else:
+                R6.ok(sample={'function': b.path, 'combinator': t.callee.path.split('::')[-1], 'default': show(d)[:60], 'total': True})
+    R6.floor('eager default combinators in the remote module', n, 5)
+
+
+# ---------------------------------------------------------------------------------------------
+# R7: str slicing at character boundaries
+
+BOUNDARY_SRC = re.compile(r'(str::<impl str>::(len|find|rfind|char_indices|match_indices|rmatch_indices|floor_char_boundary|ceil_char_boundary|is_char_boundary)|String::len|Iterator::position)$')
+
+
+def check_window_subtractions(F, R8):
+    """The window of a stream is client state: stream_change_window may set it to anything at any time, also below what has been
+    collected or sent already.  `window.end - collected` therefore needs a guard on the spot (`collected < end`); computed
+    once and counted down, or computed after the window changed, it underflows - a panic in the connection thread after the
+    command was acknowledged, so that every later command stays unanswered."""
+    import c03
+    lib = [b for b in F.order if b.crate in ('lib', 'bin')]
+
+    def window_bound(cfg, o, depth=0):
+        """the operand is a window bound itself: a (copy of a) place that goes through the `msgs_to_send` field"""
+        if o.place is None:
+            return False
+        pl = cfg.origin_of_operand(o)
+        if pl is None:
+            return False
+        if any(e['k'] == 'f' and e.get('n') == 'msgs_to_send' for e in pl.p):
+            return True
+        if not pl.p and depth < 5:
+            sd = cfg.single_def(pl.l)
+            if sd is not None and sd[1] != 'call' and sd[2].rv['k'] in ('use', 'cast'):
+                return window_bound(cfg, Operand(sd[2].rv['o']), depth + 1)
+        return False
+
+    def select(b, cfg, blk):
+        return any(window_bound(cfg, Operand(o)) for o in blk.term.d['ops'])
+    anchor = re.compile(r'^(adlt::utils::remote_utils::|<adlt::utils::remote_utils::|adlt_bin::remote::)')
+    c03.check_b3(lib, R8, anchor=anchor, ledger={}, floor_n=0,
+                 what='window arithmetic of the remote module', select=select,
+                 hint='a window changed below what was collected / sent already panics the connection thread with overflow after the command was acknowledged')
+    # the same subtraction spelled with a saturating / checked method is discharged by construction
+    for b in lib:
+        if not anchor.match(b.path):
+            continue
+        cfg = None
+        for blk in b.calls():
+            t = blk.term
+            if re.search(r'::(saturating_sub|checked_sub)$', t.callee.path) and len(t.args) == 2:
+                cfg = cfg or CFG(b)
+                if any(window_bound(cfg, a) for a in t.args):
+                    R8.sites += 1
+                    R8.fn(b.path)
+                    R8.ok(sample={'function': b.path, 'at': b.loc(t.sp), 'subtraction': t.callee.path.split('::')[-1], 'discharged_by': 'saturating / checked by construction'})
+    R8.floor('subtractions on a window bound in the remote module', R8.sites, 1)
+
+
+def check_str_slicing(F, R7):
+    """`&text[a..b]` on a str panics when a or b is not a character boundary.  Commands are arbitrary UTF-8, so a byte offset is
+    only safe if it was obtained from the text: the position of an ASCII delimiter (find/rfind/char_indices), its len(), or 0.
+    A fixed number (`&params[..256]` to shorten a log line) or an offset computed elsewhere hits the middle of a multi-byte
+    character for some inputs and kills the connection thread before any reply.  Every str index-by-range in the remote
+    module: each bound is the constant 0 or has one of those calls in its data provenance."""
+    from prov import Prov, calls_in
+    n = 0
+    for b in F.order:
+        if b.crate != 'bin' or not b.path.startswith('adlt_bin::remote::') or '::tests::' in b.path:
+            continue
+        cfg = pr = E = None
+        for blk in b.calls():
+            t = blk.term
+            if not (t.callee.path.endswith('Index::index') and len(t.args) > 1 and (t.args[0].ty or '') in ('&str', '&std::string::String', '&mut str') and 'Range' in (t.args[1].ty or '')):
+                continue
+            cfg = cfg or CFG(b)
+            pr = pr or Prov(cfg)
+            E = E or ExprBuilder(cfg, fold_named=True)
+            n += 1
+            R7.sites += 1
+            R7.fn(b.path)
+            r = E.operand(t.args[1])
+            toks = pr.operand(t.args[1], at=blk.i)
+            calls = calls_in(toks)
+            bounds = list(r[2]) if isinstance(r, tuple) and r[0] == 'agg' else [r]
+            consts = [fold_const(x) for x in bounds]
+            def from_text(e_, depth=0):
+                # 0 | len(text) | len(text) - k | find(..)@Some.0 [+ k] | char_indices item .0
+                while isinstance(e_, tuple) and e_[0] == 'cast':
+                    e_ = e_[1]
+                if fold_const(e_) == 0:
+                    return True
+                if isinstance(e_, tuple) and e_[0] == 'call' and re.search(r'(str::<impl str>::len|String::len)$', e_[1]):
+                    return True
+                if isinstance(e_, tuple) and e_[0] == 'bin' and e_[1] in ('Add', 'Sub') and fold_const(e_[3]) is not None and depth < 2:
+                    return from_text(e_[2], depth + 1)
+                if isinstance(e_, tuple) and e_[0] == 'proj' and isinstance(e_[1], tuple) and e_[1][0] == 'call' and BOUNDARY_SRC.search(e_[1][1]):
+                    return True
+                if isinstance(e_, tuple) and e_[0] == 'proj' and 'char_indices' in show(e_)[:120] and e_[-1] == '.0':
+                    return True
+                return False
+            if all(from_text(x) for x in bounds):
+                R7.ok(sample={'function': b.path, 'slice': show(r)[:80], 'offsets_from': sorted(set(c.split('::')[-1] for c in calls if BOUNDARY_SRC.search(c))) or 'constant 0'})
+            else:
+                R7.violation(('str-sliced-at-foreign-offset', b.closure_of or b.path), '%s slices a text at %s with %s: an offset that does not come from the text itself (find / char_indices / len) can fall inside a multi-byte character - '
+                             'the slice panics and the command gets no reply' % (b.path, b.loc(t.sp), show(r)[:70]), where=b.loc(t.sp))
+    R7.ok(sample={'str_slicing_sites': n}) if n == 0 else None
